@@ -474,6 +474,20 @@ def agg_case(seed):
     rules.append(Rule('P', [x], body=Conj(pos + [Neg(negd)])))
   elif kind == 'impl':
     rules.append(Rule('P', [x], body=Conj([A('G', x), Impl(A('E', x, y), rnd.choice([A('F', y, x), A('G', y), Cmp('>', y, Num(0))]))])))
+  elif kind == 'argbest' and rnd.random() < 0.4:
+    # ArgMinK / ArgMaxK through the documented wrapper idiom
+    which = rnd.choice(['Min', 'Max'])
+    k = rnd.choice([1, 2, 2, 3])
+    op = 'Arg%s%d' % (which, k)
+    nkeys = rnd.randint(0, 1)
+    wrapper = '%s(x) = Arg%sK(x, %d);' % (op, which, k)
+    if rnd.random() < 0.5:
+      rules.append(Rule('P', [x][:nkeys], [], Agg(op, Arrow(z, y)), False, Conj([A('W', x, z, y)])))
+    else:
+      rules.append(Rule('P', [x][:nkeys], [('best', Agg(op, Arrow(z, y))), ('n', Agg('Sum', Num(1)))], None, True,
+                        Conj([A('W', x, z, y)])))
+    prog = Program(rules, [wrapper], ext=EXT)
+    return Case(prog, 'agg', K=3, notes='argbest_k %s' % op)
   elif kind == 'argbest':
     op = rnd.choice(['ArgMin', 'ArgMax'])
     nkeys = rnd.randint(0, 1)
